@@ -5,6 +5,7 @@ import Nuts.Model.Tx
 import NutsProofs.Props.C10
 import NutsProofs.Lemmas.ReopenObs
 import NutsProofs.Lemmas.ReopenAll
+import NutsProofs.Facts
 namespace NutsProofs.C08
 open Nuts Nuts.Model Nuts.Model.DB NutsProofs
 
@@ -135,5 +136,14 @@ theorem C08_witness_all_structures :
       first
         | exact ⟨by decide +kernel, rfl, fun hd => absurd hd (by decide +kernel)⟩
         | exact ⟨by decide +kernel, rfl, fun _ _ => ⟨[109], [49], by decide +kernel⟩⟩
+
+/-- **regenerated tie of recovery and of the appliers.** The functions that apply a record to an index — at
+`Commit` (`tx.build…Idx`) and at `Open` (`db.build…Idx`): flag dispatch, argument parsing, structure calls — the
+rotation, and the scan of the data files at `Open` are on this run, line for line, the source the model's
+`applyKV` / `applyList` / `applySet` / `applyZSet` / `rotate` / `replay` / `openDB` were written from
+(`NutsProofs.Facts.expectedApplierStmts`, 198 lines). A replay that differs from the commit-time application
+(the usual way to break "reopen preserves every result") changes these lines. -/
+theorem C08_appliers_regenerated : NutsGen.F.applierStmts = NutsProofs.Facts.expectedApplierStmts :=
+  NutsProofs.Facts.appliers_ok
 
 end NutsProofs.C08
